@@ -439,3 +439,394 @@ Proof.
   destruct (accept (fst sb)) eqn:A2; [|destruct Hin].
   apply in_map_iff in Hin as [bd [E2 _]]. inversion E2; subst. congruence.
 Qed.
+
+(* ---------- Block.CalcNumLabels: per-label voxel count differences ---------- *)
+Definition occ (arr : list N) (s : N) : N := fold_right (fun l acc => if l =? s then 1 + acc else acc) 0 arr.
+Definition occo (prev : option (list N)) (s : N) : N := match prev with Some p => occ p s | None => 0 end.
+
+Lemma occ_cons l r s : occ (l :: r) s = if l =? s then 1 + occ r s else occ r s.
+Proof. reflexivity. Qed.
+Lemma occ_nil s : occ [] s = 0.
+Proof. reflexivity. Qed.
+
+Lemma zget_aset l v acc s : zget s (aset N.eqb l v acc) = if s =? l then v else zget s acc.
+Proof.
+  unfold zget. destruct (s =? l) eqn:E.
+  - apply N.eqb_eq in E; subst. now rewrite (aget_aset_eq N.eqb N.eqb_eq).
+  - rewrite (aget_aset_ne N.eqb N.eqb_eq); [reflexivity|]. intro H; subst. now rewrite N.eqb_refl in E.
+Qed.
+
+Lemma ahas_aset {V} l (v : V) acc s : ahas N.eqb s (aset N.eqb l v acc) = ahas N.eqb s acc || (s =? l).
+Proof.
+  unfold ahas. destruct (s =? l) eqn:E.
+  - apply N.eqb_eq in E; subst. rewrite (aget_aset_eq N.eqb N.eqb_eq). now rewrite orb_true_r.
+  - rewrite (aget_aset_ne N.eqb N.eqb_eq); [now rewrite orb_false_r|]. intro H; subst. now rewrite N.eqb_refl in E.
+Qed.
+
+Lemma hist_zget arr sign : forall acc s,
+  zget s (hist arr sign acc) = (zget s acc + (if (s =? 0)%N then 0 else sign * Z.of_N (occ arr s)))%Z.
+Proof.
+  induction arr as [|l r IH]; intros acc s; cbn [hist].
+  - rewrite occ_nil. destruct (s =? 0); lia.
+  - rewrite IH, occ_cons. destruct (l =? 0) eqn:L0.
+    + apply N.eqb_eq in L0; subst l. destruct (s =? 0) eqn:S0; [lia|].
+      rewrite (N.eqb_sym 0 s), S0. lia.
+    + rewrite zget_aset. destruct (s =? l) eqn:E.
+      * apply N.eqb_eq in E; subst s. rewrite L0, N.eqb_refl. lia.
+      * rewrite (N.eqb_sym l s), E. destruct (s =? 0); lia.
+Qed.
+
+Lemma hist_has arr sign : forall acc s,
+  ahas N.eqb s (hist arr sign acc) = ahas N.eqb s acc || (negb (s =? 0) && (0 <? occ arr s)).
+Proof.
+  induction arr as [|l r IH]; intros acc s; cbn [hist].
+  - rewrite occ_nil. now rewrite andb_false_r, orb_false_r.
+  - rewrite IH, occ_cons. destruct (l =? 0) eqn:L0.
+    + apply N.eqb_eq in L0; subst l. destruct (s =? 0) eqn:S0; cbn [negb andb]; [reflexivity|].
+      now rewrite (N.eqb_sym 0 s), S0.
+    + rewrite ahas_aset. destruct (s =? l) eqn:E.
+      * apply N.eqb_eq in E; subst s. rewrite L0, N.eqb_refl. cbn [negb andb].
+        rewrite orb_true_r. cbn [orb]. destruct (0 <? 1 + occ r l) eqn:P; [now rewrite !orb_true_r | apply N.ltb_ge in P; lia].
+      * rewrite (N.eqb_sym l s), E. now rewrite orb_false_r.
+Qed.
+
+Lemma hist_nodup arr sign : forall acc, NoDup (map fst acc) -> NoDup (map fst (hist arr sign acc)).
+Proof.
+  induction arr as [|l r IH]; intros acc H; simpl; [exact H|].
+  apply IH. destruct (l =? 0); [exact H | now apply (nodup_aset N.eqb N.eqb_eq)].
+Qed.
+
+Theorem calc_num_labels_spec cur prev s :
+  zget s (calc_num_labels cur prev) =
+  if s =? 0 then 0%Z else (Z.of_N (occ cur s) - Z.of_N (occo prev s))%Z.
+Proof.
+  unfold calc_num_labels. rewrite hist_zget. destruct prev as [p|]; cbn [occo].
+  - rewrite hist_zget. change (zget s []) with 0%Z. destruct (s =? 0); lia.
+  - change (zget s []) with 0%Z. destruct (s =? 0); lia.
+Qed.
+
+Lemma calc_num_labels_has cur prev s :
+  ahas N.eqb s (calc_num_labels cur prev) = negb (s =? 0) && ((0 <? occ cur s) || (0 <? occo prev s)).
+Proof.
+  unfold calc_num_labels. rewrite hist_has. destruct prev as [p|]; cbn [occo].
+  - rewrite hist_has. change (ahas N.eqb s (@nil (N * Z))) with false.
+    destruct (s =? 0); cbn [negb andb orb]; [reflexivity|]. now rewrite orb_comm.
+  - change (ahas N.eqb s (@nil (N * Z))) with false. change (0 <? 0) with false.
+    destruct (s =? 0); cbn [negb andb orb]; [reflexivity|]. now rewrite orb_false_r.
+Qed.
+
+Lemma calc_num_labels_nodup cur prev : NoDup (map fst (calc_num_labels cur prev)).
+Proof.
+  unfold calc_num_labels. apply hist_nodup. destruct prev; [apply hist_nodup|]; constructor.
+Qed.
+
+Lemma occ_le_length arr s : occ arr s <= N.of_nat (length arr).
+Proof. induction arr as [|l r IH]; [simpl; lia|]. rewrite occ_cons. cbn [length]. destruct (l =? s); lia. Qed.
+
+(* ---------- aggregateBlockChanges: svChanges[sv][block] is the block's delta for sv ---------- *)
+Definition dl (svc : changes) (s b : N) : Z :=
+  zget b (match aget N.eqb s svc with Some l => l | None => [] end).
+
+Definition CWf (svc : changes) : Prop :=
+  NoDup (map fst svc) /\ forall s l, In (s, l) svc -> NoDup (map fst l).
+
+Lemma in_aset_N {V} k (v : V) l x : In x (aset N.eqb k v l) -> x = (k, v) \/ In x l.
+Proof.
+  induction l as [|[k' v'] r IH]; simpl.
+  - intros [H|[]]; auto.
+  - destruct (k =? k') eqn:E; simpl.
+    + apply N.eqb_eq in E; subst. intros [H|H]; auto.
+    + intros [H|H]; auto. destruct (IH H); auto.
+Qed.
+
+Lemma aget_aset_Nk {V} k (v : V) m k' :
+  aget N.eqb k' (aset N.eqb k v m) = if k' =? k then Some v else aget N.eqb k' m.
+Proof.
+  destruct (k' =? k) eqn:E.
+  - apply N.eqb_eq in E; subst. apply (aget_aset_eq N.eqb N.eqb_eq).
+  - apply (aget_aset_ne N.eqb N.eqb_eq). intro H; subst. now rewrite N.eqb_refl in E.
+Qed.
+
+Lemma dl_agg_add svc s b d s' b' :
+  dl (agg_add svc s b d) s' b' = if (s' =? s) && (b' =? b) then (dl svc s b + d)%Z else dl svc s' b'.
+Proof.
+  unfold dl, agg_add. rewrite aget_aset_Nk. destruct (s' =? s) eqn:Es; cbn [andb].
+  - apply N.eqb_eq in Es; subst s'. rewrite zget_aset. destruct (b' =? b) eqn:Eb; [reflexivity|].
+    reflexivity.
+  - reflexivity.
+Qed.
+
+Lemma has_agg_add svc s b d s' : ahas N.eqb s' (agg_add svc s b d) = ahas N.eqb s' svc || (s' =? s).
+Proof. unfold agg_add. apply ahas_aset. Qed.
+
+Lemma cwf_agg_add svc s b d : CWf svc -> CWf (agg_add svc s b d).
+Proof.
+  intros [ND H]. unfold agg_add. split.
+  - now apply (nodup_aset N.eqb N.eqb_eq).
+  - intros s' l Hin. apply in_aset_N in Hin as [Hin|Hin].
+    + inversion Hin; subst. apply (nodup_aset N.eqb N.eqb_eq).
+      destruct (aget N.eqb s svc) as [bc|] eqn:A; [|constructor].
+      apply (H s bc). now apply (aget_Some_in N.eqb N.eqb_eq).
+    + now apply (H s' l).
+Qed.
+
+Definition agg_block (svc : changes) (ch : N * list (N * Z)) : changes :=
+  fold_left (fun svc' sd => agg_add svc' (fst sd) (fst ch) (snd sd)) (snd ch) svc.
+
+Lemma agg_changes_fold chs : agg_changes chs = fold_left agg_block chs [].
+Proof. reflexivity. Qed.
+
+Lemma zget_notin s (l : list (N * Z)) : ~ In s (map fst l) -> zget s l = 0%Z.
+Proof. intro H. unfold zget. now rewrite (proj2 (aget_None_notin N.eqb N.eqb_eq s l) H). Qed.
+
+Lemma dl_agg_block b ds : forall svc s' b',
+  NoDup (map fst ds) ->
+  dl (agg_block svc (b, ds)) s' b' = if b' =? b then (dl svc s' b + zget s' ds)%Z else dl svc s' b'.
+Proof.
+  unfold agg_block; simpl. induction ds as [|[s0 d0] r IH]; intros svc s' b' ND; simpl.
+  - unfold zget; simpl. destruct (b' =? b) eqn:E; [apply N.eqb_eq in E; subst; lia | reflexivity].
+  - inversion ND as [|? ? Hn ND']; subst. rewrite (IH _ s' b' ND'). rewrite !dl_agg_add.
+    destruct (b' =? b) eqn:Eb.
+    + rewrite N.eqb_refl, andb_true_r. unfold zget at 2; simpl.
+      destruct (s' =? s0) eqn:Es.
+      * apply N.eqb_eq in Es; subst s'. rewrite (zget_notin s0 r Hn). lia.
+      * fold (zget s' r). lia.
+    + now rewrite andb_false_r.
+Qed.
+
+Lemma has_agg_block b ds : forall svc s',
+  ahas N.eqb s' (agg_block svc (b, ds)) = ahas N.eqb s' svc || ahas N.eqb s' ds.
+Proof.
+  unfold agg_block; simpl. induction ds as [|[s0 d0] r IH]; intros svc s'; simpl.
+  - unfold ahas at 3; simpl. now rewrite orb_false_r.
+  - rewrite IH, has_agg_add. unfold ahas at 2 3 4. simpl. destruct (s' =? s0); simpl.
+    + now rewrite !orb_true_r.
+    + now rewrite orb_false_r.
+Qed.
+
+Lemma cwf_agg_block ch svc : CWf svc -> CWf (agg_block svc ch).
+Proof.
+  unfold agg_block. revert svc. induction (snd ch) as [|sd r IH]; intros svc H; simpl; [exact H|].
+  apply IH. now apply cwf_agg_add.
+Qed.
+
+Definition delta_at (chs : list (N * list (N * Z))) (s b : N) : Z :=
+  match aget N.eqb b chs with Some ds => zget s ds | None => 0%Z end.
+
+Lemma dl_fold_blocks chs : forall svc s b,
+  NoDup (map fst chs) -> (forall b' ds, In (b', ds) chs -> NoDup (map fst ds)) ->
+  dl (fold_left agg_block chs svc) s b = (dl svc s b + delta_at chs s b)%Z.
+Proof.
+  induction chs as [|[b0 ds0] r IH]; intros svc s b ND Hd; simpl.
+  - unfold delta_at; simpl. lia.
+  - inversion ND as [|? ? Hn ND']; subst.
+    rewrite IH; [|exact ND' | intros; eapply Hd; right; eassumption].
+    rewrite dl_agg_block by (eapply Hd; left; reflexivity).
+    unfold delta_at; simpl. destruct (b =? b0) eqn:E.
+    + apply N.eqb_eq in E; subst b0.
+      rewrite (proj2 (aget_None_notin N.eqb N.eqb_eq b r) Hn). lia.
+    + lia.
+Qed.
+
+Lemma has_fold_blocks chs : forall svc s,
+  ahas N.eqb s (fold_left agg_block chs svc) = ahas N.eqb s svc || existsb (fun ch => ahas N.eqb s (snd ch)) chs.
+Proof.
+  induction chs as [|[b0 ds0] r IH]; intros svc s; simpl; [now rewrite orb_false_r|].
+  rewrite IH, has_agg_block. now rewrite orb_assoc.
+Qed.
+
+Lemma cwf_fold_blocks chs : forall svc, CWf svc -> CWf (fold_left agg_block chs svc).
+Proof. induction chs as [|ch r IH]; intros svc H; simpl; [exact H | apply IH; now apply cwf_agg_block]. Qed.
+
+Lemma cwf_nil : CWf [].
+Proof. split; [constructor | intros s l []]. Qed.
+
+(* the flattened change list of ModifyBlocks against svChanges *)
+Lemma dsum_app l1 l2 s b : dsum (l1 ++ l2) s b = (dsum l1 s b + dsum l2 s b)%Z.
+Proof.
+  unfold dsum. induction l1 as [|t r IH]; simpl; [lia|].
+  destruct ((fst (fst t) =? s) && (snd (fst t) =? b)); rewrite IH; lia.
+Qed.
+
+Lemma zget_cons b0 d0 (r : list (N * Z)) b : zget b ((b0, d0) :: r) = if b =? b0 then d0 else zget b r.
+Proof. unfold zget; simpl. now destruct (b =? b0). Qed.
+
+Lemma dsum_one s0 bcs s b : NoDup (map fst bcs) ->
+  dsum (map (fun bd : N * Z => (s0, fst bd, snd bd)) bcs) s b = if s =? s0 then zget b bcs else 0%Z.
+Proof.
+  intro ND. induction bcs as [|[b0 d0] r IH]; simpl.
+  - unfold zget; simpl. now destruct (s =? s0).
+  - inversion ND as [|? ? Hn ND']; subst. rewrite (IH ND'), zget_cons.
+    rewrite (N.eqb_sym s0 s), (N.eqb_sym b0 b). destruct (s =? s0) eqn:Es; simpl; [|reflexivity].
+    destruct (b =? b0) eqn:Eb.
+    + apply N.eqb_eq in Eb; subst b0. rewrite (zget_notin b r Hn). lia.
+    + reflexivity.
+Qed.
+
+Lemma dsum_flat accept svc s b : CWf svc ->
+  dsum (flat_changes accept svc) s b = if accept s then dl svc s b else 0%Z.
+Proof.
+  intros [ND H]. unfold flat_changes, dl. induction svc as [|[s0 bcs] r IH]; simpl.
+  - unfold zget; simpl. now destruct (accept s).
+  - inversion ND as [|? ? Hn ND']; subst. rewrite dsum_app.
+    rewrite IH; [|exact ND' | intros; eapply H; right; eassumption].
+    destruct (s =? s0) eqn:Es.
+    + apply N.eqb_eq in Es; subst s0.
+      rewrite (proj2 (aget_None_notin N.eqb N.eqb_eq s r) Hn).
+      destruct (accept s) eqn:A.
+      * rewrite dsum_one by (eapply H; left; reflexivity). rewrite N.eqb_refl. unfold zget at 2; simpl. lia.
+      * reflexivity.
+    + destruct (accept s0).
+      * rewrite dsum_one by (eapply H; left; reflexivity). rewrite Es. lia.
+      * reflexivity.
+Qed.
+
+Lemma nodup_flat accept svc : CWf svc -> NoDup (map fst (flat_changes accept svc)).
+Proof.
+  intros [ND H]. unfold flat_changes. induction svc as [|[s0 bcs] r IH]; simpl; [constructor|].
+  inversion ND as [|? ? Hn ND']; subst. rewrite map_app. apply NoDup_app_intro.
+  - destruct (accept s0); [|constructor]. rewrite map_map. simpl.
+    assert (NoDup (map fst bcs)) as Hb by (eapply H; left; reflexivity).
+    clear - Hb. induction bcs as [|[b0 d0] t IHt]; simpl; [constructor|].
+    inversion Hb; subst. constructor; [|auto]. intro Hin. apply in_map_iff in Hin as [[b1 d1] [E Hin]].
+    inversion E; subst. apply H1. apply in_map_iff. now exists (b0, d1).
+  - apply IH; [exact ND' | intros; eapply H; right; eassumption].
+  - intros [s b] H1 H2. destruct (accept s0); [|destruct H1].
+    apply in_map_iff in H1 as [[[s1 b1] d1] [E1 Hin1]]. apply in_map_iff in Hin1 as [bd [E Hin1]].
+    inversion E; subst. simpl in E1. inversion E1; subst.
+    apply in_map_iff in H2 as [[[s2 b2] d2] [E2 Hin2]]. simpl in E2. inversion E2; subst.
+    apply in_flat_map in Hin2 as [[s3 bcs3] [Hin3 Hin4]]. simpl in Hin4.
+    destruct (accept s3); [|destruct Hin4]. apply in_map_iff in Hin4 as [bd4 [E4 _]]. inversion E4; subst.
+    apply Hn. apply in_map_iff. now exists (s, bcs3).
+Qed.
+
+Lemma in_flat_changes accept svc s b d :
+  In (s, b, d) (flat_changes accept svc) -> accept s = true /\ ahas N.eqb s svc = true.
+Proof.
+  unfold flat_changes. intro H. apply in_flat_map in H as [[s0 bcs] [Hin H]]. simpl in H.
+  destruct (accept s0) eqn:A; [|destruct H]. apply in_map_iff in H as [bd [E _]]. inversion E; subst.
+  split; [exact A|]. unfold ahas. destruct (aget N.eqb s svc) eqn:G; [reflexivity|].
+  apply (aget_None_notin N.eqb N.eqb_eq) in G. exfalso. apply G. apply in_map_iff. now exists (s, bcs).
+Qed.
+
+Lemma in_flat_changes_dl accept svc s b d : CWf svc ->
+  In (s, b, d) (flat_changes accept svc) -> d = dl svc s b.
+Proof.
+  intros [ND H] Hin. unfold flat_changes in Hin. apply in_flat_map in Hin as [[s0 bcs] [Hin0 Hin]]. simpl in Hin.
+  destruct (accept s0); [|destruct Hin]. apply in_map_iff in Hin as [[b1 d1] [E Hin1]]. inversion E; subst.
+  unfold dl. rewrite (in_aget_nodup N.eqb N.eqb_eq s bcs svc ND Hin0).
+  unfold zget. now rewrite (in_aget_nodup N.eqb N.eqb_eq b d bcs (H s bcs Hin0) Hin1).
+Qed.
+
+(* ---------- ModifyBlocks keeps stored indices well formed ---------- *)
+Lemma in_aset_key k (v : N) (l : index) x : In x (aset key_eqb k v l) -> x = (k, v) \/ In x l.
+Proof.
+  intro H. destruct (in_aset key_eqb key_eqb_eq x k v l H) as [H1|[H1|[k' [E H1]]]]; auto. subst. auto.
+Qed.
+
+Lemma wf_aset idx k c : Wf idx -> 0 < c -> Wf (aset key_eqb k c idx).
+Proof.
+  intros [ND P] Hc. split.
+  - unfold keys_of. now apply (nodup_aset key_eqb key_eqb_eq).
+  - apply Forall_forall. intros x Hx. apply in_aset_key in Hx as [->|Hx]; [exact Hc|].
+    rewrite Forall_forall in P. now apply P.
+Qed.
+
+Lemma wf_adel idx k : Wf idx -> Wf (adel key_eqb k idx).
+Proof.
+  intros [ND P]. split.
+  - unfold keys_of. now apply (nodup_adel key_eqb).
+  - apply Forall_forall. intros x Hx. apply (in_adel key_eqb) in Hx. rewrite Forall_forall in P. now apply P.
+Qed.
+
+Lemma mod_one_wf idx s b d idx' :
+  Wf idx -> (- 2 ^ 31 <= d < 2 ^ 31)%Z -> (0 <= Z.of_N (cnt idx b s) + d < 2 ^ 32)%Z ->
+  ((0 < Z.of_N (cnt idx b s) + d)%Z \/ 0 < cnt idx b s) ->
+  mod_one idx s b d = Ok idx' -> Wf idx'.
+Proof.
+  intros W Hd Hr Hp. unfold mod_one. destruct (block_in idx b) eqn:Bi.
+  - destruct ((d <? 0)%Z && (cnt idx b s <? wrap32 (- d))); [discriminate|].
+    pose proof (wrap32_small _ Hr) as Ws.
+    destruct (wrap32 (Z.of_N (cnt idx b s) + d) =? 0) eqn:Z0; intro E; apply Ok_inj in E; subst idx'.
+    + now apply wf_adel.
+    + apply wf_aset; [exact W|]. apply N.eqb_neq in Z0. lia.
+  - pose proof (block_in_false_cnt idx b s Bi) as C0. rewrite C0 in *.
+    destruct (d <? 0)%Z eqn:Dn; [discriminate|]. intro E; apply Ok_inj in E; subst idx'.
+    apply wf_aset; [exact W|]. assert (Z.of_N (wrap32 d) = d) by (apply wrap32_small; lia). lia.
+Qed.
+
+Lemma apply_flat_wf l : forall idx idx',
+  Wf idx -> NoDup (map fst l) ->
+  (forall s b d, In (s, b, d) l ->
+     (- 2 ^ 31 <= d < 2 ^ 31)%Z /\ (0 <= Z.of_N (cnt idx b s) + d < 2 ^ 32)%Z /\
+     ((0 < Z.of_N (cnt idx b s) + d)%Z \/ 0 < cnt idx b s)) ->
+  apply_flat l (Ok idx) = Ok idx' -> Wf idx'.
+Proof.
+  induction l as [|[[s0 b0] d0] r IH]; intros idx idx' W ND Pre H.
+  - unfold apply_flat in H; simpl in H. apply Ok_inj in H. now subst.
+  - inversion ND as [|? ? Hn ND']; subst.
+    destruct (Pre s0 b0 d0 (or_introl eq_refl)) as (Hd & Hr & Hp).
+    destruct (mod_one_spec idx s0 b0 d0 Hd Hr) as [idx1 [E1 C1]].
+    unfold apply_flat in H; simpl in H. rewrite E1 in H.
+    apply (IH idx1 idx'); [eapply mod_one_wf; eauto | exact ND' | | exact H].
+    intros s b d Hin. destruct (Pre s b d (or_intror Hin)) as (Hd' & Hr' & Hp').
+    assert (Z.of_N (cnt idx1 b s) = Z.of_N (cnt idx b s)) as Same.
+    { rewrite C1. destruct (key_eqb (b, s) (b0, s0)) eqn:K; [|reflexivity].
+      apply key_eqb_eq in K. inversion K; subst. exfalso. apply Hn.
+      apply in_map_iff. exists (s0, b0, d). split; [reflexivity | exact Hin]. }
+    assert (cnt idx1 b s = cnt idx b s) as Same' by lia. rewrite Same'. auto.
+Qed.
+
+(* which blocks svChanges[sv] mentions *)
+Definition bkeys (svc : changes) (s : N) : list N :=
+  map fst (match aget N.eqb s svc with Some l => l | None => [] end).
+
+Lemma keys_aset_in {V} k (v : V) (l : list (N * V)) x :
+  In x (map fst (aset N.eqb k v l)) <-> In x (map fst l) \/ x = k.
+Proof.
+  rewrite (keys_aset N.eqb). unfold ahas. destruct (aget N.eqb k l) eqn:A.
+  - split; [auto|]. intros [H|H]; [exact H|]. subst.
+    apply (aget_Some_in N.eqb N.eqb_eq) in A. apply in_map_iff. now exists (k, v0).
+  - rewrite in_app_iff. simpl. split; intros [H|H]; auto. destruct H; auto. contradiction.
+Qed.
+
+Lemma bkeys_agg_add svc s b d s' b' :
+  In b' (bkeys (agg_add svc s b d) s') <-> In b' (bkeys svc s') \/ (s' = s /\ b' = b).
+Proof.
+  unfold bkeys, agg_add. rewrite aget_aset_Nk. destruct (s' =? s) eqn:E.
+  - apply N.eqb_eq in E; subst s'. rewrite keys_aset_in. split; intros [H|H]; auto; tauto.
+  - apply N.eqb_neq in E. split; [auto | intros [H|[H _]]; [exact H | contradiction]].
+Qed.
+
+Lemma bkeys_agg_block b ds : forall svc s' b',
+  In b' (bkeys (agg_block svc (b, ds)) s') <-> In b' (bkeys svc s') \/ (b' = b /\ ahas N.eqb s' ds = true).
+Proof.
+  unfold agg_block; simpl. induction ds as [|[s0 d0] r IH]; intros svc s' b'; simpl.
+  - unfold ahas; simpl. split; [auto | intros [H|[_ H]]; [exact H | discriminate]].
+  - rewrite IH, bkeys_agg_add. unfold ahas at 2; simpl. unfold ahas.
+    destruct (s' =? s0) eqn:E.
+    + apply N.eqb_eq in E; subst. tauto.
+    + apply N.eqb_neq in E. tauto.
+Qed.
+
+Lemma bkeys_fold_blocks chs : forall svc s b,
+  In b (bkeys (fold_left agg_block chs svc) s) <->
+  In b (bkeys svc s) \/ exists ds, In (b, ds) chs /\ ahas N.eqb s ds = true.
+Proof.
+  induction chs as [|[b0 ds0] r IH]; intros svc s b; simpl.
+  - split; [auto | intros [H|[ds [[] _]]]; exact H].
+  - rewrite IH, bkeys_agg_block. split.
+    + intros [[H|[H1 H2]]|[ds [H1 H2]]]; auto.
+      * right. exists ds0. subst. auto.
+      * right. exists ds. auto.
+    + intros [H|[ds [[H1|H1] H2]]]; auto.
+      * inversion H1; subst. auto.
+      * right. exists ds. auto.
+Qed.
+
+Lemma in_flat_changes_bkeys accept svc s b d : In (s, b, d) (flat_changes accept svc) -> NoDup (map fst svc) -> In b (bkeys svc s).
+Proof.
+  intros Hin ND. unfold flat_changes in Hin. apply in_flat_map in Hin as [[s0 bcs] [Hin0 Hin]]. simpl in Hin.
+  destruct (accept s0); [|destruct Hin]. apply in_map_iff in Hin as [[b1 d1] [E Hin1]]. inversion E; subst.
+  unfold bkeys. rewrite (in_aget_nodup N.eqb N.eqb_eq s bcs svc ND Hin0). apply in_map_iff. now exists (b, d).
+Qed.
